@@ -266,6 +266,7 @@ func runC35(r *core.R) {
 	}
 	api.DisableConfigDir()
 	c35KeyRoundTrips(r)
+	c35CollidingKeys(r)
 	ops := c35ops()
 	r.Note("operations", len(ops))
 	dir := core.Scratch("c35")
@@ -444,6 +445,52 @@ func c35KeyRoundTrips(r *core.R) {
 			ps, err = api.Properties(bytes.NewReader(d3.Bytes()), conf())
 			if err != nil || len(ps) != 1 || ps["Other"] != "kept" {
 				r.Violation("property:remove-list-mismatch", fmt.Sprintf("after removing %q the properties are %q (err %v)", k, ps, err), rep)
+			}
+		}
+	}
+}
+
+// c35CollidingKeys: pairs of property names one of which looks like the escaped spelling of the other ("K#41" vs
+// "KA"): both are distinct keys of the key/value store whatever the order in which they are added or removed.
+func c35CollidingKeys(r *core.R) {
+	base := docgen.Marked(2, 0)
+	pairs := [][2]string{{"K#41", "KA"}, {"a#20b", "a b"}, {"X#2341", "X#41"}, {"N#23", "N#"}, {"F#31", "F1"}}
+	for _, p := range pairs {
+		for _, ord := range [][2]string{{p[0], p[1]}, {p[1], p[0]}} {
+			r.Eval(1)
+			rep := map[string]any{"first": ord[0], "second": ord[1]}
+			doc := base
+			ok := true
+			for i, k := range ord {
+				var out bytes.Buffer
+				if err := api.AddProperties(bytes.NewReader(doc), &out, map[string]string{k: fmt.Sprintf("value %d", i+1)}, newConf()); err != nil {
+					r.Count("property_refused", 1)
+					ok = false
+					break
+				}
+				doc = out.Bytes()
+			}
+			if !ok {
+				continue
+			}
+			r.Nontrivial(1)
+			ps, err := api.Properties(bytes.NewReader(doc), newConf())
+			if err != nil || len(ps) != 2 || ps[ord[0]] != "value 1" || ps[ord[1]] != "value 2" {
+				if r.Want("property:colliding-names:add") {
+					r.Violation("property:colliding-names:add", fmt.Sprintf("after adding %q=\"value 1\" then %q=\"value 2\" the properties are %q (err %v)", ord[0], ord[1], ps, err), rep)
+				}
+				continue
+			}
+			var out bytes.Buffer
+			if err := api.RemoveProperties(bytes.NewReader(doc), &out, []string{ord[0]}, newConf()); err != nil {
+				r.Violation("property:colliding-names:remove-failed", fmt.Sprintf("removing %q while %q exists: %v", ord[0], ord[1], err), rep)
+				continue
+			}
+			ps, err = api.Properties(bytes.NewReader(out.Bytes()), newConf())
+			if err != nil || len(ps) != 1 || ps[ord[1]] != "value 2" {
+				if r.Want("property:colliding-names:remove") {
+					r.Violation("property:colliding-names:remove", fmt.Sprintf("after removing %q (with %q present) the properties are %q (err %v)", ord[0], ord[1], ps, err), rep)
+				}
 			}
 		}
 	}
